@@ -3,7 +3,7 @@ from . import has_class
 CFG = {
     "harness": ["v1", "v2"],
     "functional": ["C05.comments", "C05.pkgcomments"],
-    "required_classes": ["layout", "doc", "detached", "trailing", "block-comment", "struct-fields", "method", "grouped", "interface-methods", "adjacent-declarations", "doc.go", "file-named-like-doc.go", "no-doc.go", "dependency-first-then-requested", "requested-twice-into-one-universe", "trailing-block-ends-on-next-line", "doc-of-directives-only", "dependency-in-universe-before-it-is-requested", "alias-declaration-with-doc"],
+    "required_classes": ["layout", "doc", "detached", "trailing", "block-comment", "struct-fields", "method", "grouped", "interface-methods", "adjacent-declarations", "doc.go", "file-named-like-doc.go", "no-doc.go", "dependency-first-then-requested", "requested-twice-into-one-universe", "trailing-block-ends-on-next-line", "doc-of-directives-only", "dependency-in-universe-before-it-is-requested", "alias-declaration-with-doc", "file-with-generated-code-header", "other-package-with-equally-named-file"],
     "rule": 'gofmt-formatted source layouts from a layout grammar: single and grouped type/const/var declarations, functions, methods, struct fields, interface methods, adjacent declarations without blank lines, // and /* */ doc blocks (one or several lines), detached blocks one blank line above, trailing comments (line and block style, block comments also ending on the following line, after braces and parentheses and on the package clause), 1-2 files plus doc.go; every fourth package is first loaded as a dependency, every fourth is requested a second time into the universe that already holds it; comment groups (start line, end line, trailing flag from the source text, Text() lines) and declaration lines come from an independent go/parser pass; real loaders: v1 from a scratch GOPATH, v2 from a module; observable = CommentLines and SecondClosestCommentLines of every declaration, field and method, Package.Comments/DocComments; non-trivial = input longer than 12 characters',
     "exhaustive": [],
     "modelled": 'the endLineToCommentGroup index (later group wins, trailing groups left out), priorCommentLines, docComment/priorDetachedComment, addCommentsToType, member and method comments, the doc.go special case. Comment grouping, positions and CommentGroup.Text() are go/parser / go/ast behaviour taken as input.',
